@@ -1,8 +1,14 @@
 #!/usr/bin/env python3
-"""tools/seed_eval.py <seeded/<id>/<name> dir> <check id> [--tier quick|thorough]
-Applies seeded/.../patch.diff to /repo (which must be clean), runs the check, reverts /repo straight afterwards
-(git checkout -- .), records exit status and VIOLATION lines in the seed's meta.json under "runs"."""
+"""tools/seed_eval.py <seeded/<id>/<name> dir> <check id> [--tier quick|thorough] [--worktree <dir>]
+
+Default (the prescribed way): applies <dir>/patch.diff to /repo (which must be clean), runs the check, reverts
+/repo straight afterwards (git checkout -- .); the clean-tree evidence file is saved and restored.
+With --worktree <dir>: the patch is applied in a scratch git worktree of /repo (created at /repo's HEAD if
+missing) and the check runs with VERIF_REPO=<dir>: /repo and /verif/evidence are not touched, so several
+evaluations can run side by side.  Records exit status and VIOLATION lines in the seed's meta.json under "runs"."""
 import json, os, subprocess, sys, time
+
+BUILD_CHECKS = {"C01", "C02", "C11", "C13", "C14"}      # need the dora toolchain built in the tree they look at
 
 def sh(cmd, **kw):
     return subprocess.run(cmd, shell=True, text=True, capture_output=True, **kw)
@@ -10,39 +16,52 @@ def sh(cmd, **kw):
 def main():
     d = os.path.abspath(sys.argv[1]); cid = sys.argv[2]
     tier = sys.argv[sys.argv.index("--tier") + 1] if "--tier" in sys.argv else "quick"
+    wt = sys.argv[sys.argv.index("--worktree") + 1] if "--worktree" in sys.argv else None
     patch = os.path.join(d, "patch.diff")
-    st = sh("git -C /repo status --porcelain --untracked-files=no").stdout.strip()
+    tree = wt or "/repo"
+    if wt and not os.path.exists(os.path.join(wt, ".git")):
+        r = sh("git -C /repo worktree add --detach %s HEAD" % wt)
+        if r.returncode != 0:
+            print("cannot create worktree:", r.stderr); sys.exit(2)
+    if wt and cid in BUILD_CHECKS and not os.path.exists(os.path.join(wt, "target")):
+        sh("cp -a /repo/target %s/target" % wt)
+    if wt:
+        sh("git -C %s checkout -q --detach $(git -C /repo rev-parse HEAD) && git -C %s checkout -- ." % (wt, wt))
+    st = sh("git -C %s status --porcelain --untracked-files=no" % tree).stdout.strip()
     if st:
-        print("refusing: /repo has uncommitted changes:\n" + st); sys.exit(2)
-    r = sh("git -C /repo apply --check %s" % patch)
+        print("refusing: %s has uncommitted changes:\n%s" % (tree, st)); sys.exit(2)
+    r = sh("git -C %s apply --check %s" % (tree, patch))
     if r.returncode != 0:
         print("patch does not apply:", r.stderr); sys.exit(2)
-    sh("git -C /repo apply %s" % patch)
-    # the evidence file describes the unchanged tree: keep it (the run on the mutated tree goes to <seed>/evidence-<id>.json)
+    sh("git -C %s apply %s" % (tree, patch))
     ev = "/verif/evidence/%s.json" % cid
-    saved = open(ev).read() if os.path.exists(ev) else None
+    saved = open(ev).read() if (not wt and os.path.exists(ev)) else None
     t = time.time()
     try:
         env = dict(os.environ); env.setdefault("VERIF_SEED", "0")
+        if wt:
+            env["VERIF_REPO"] = wt
         p = subprocess.run(["./check", cid, "--tier", tier], cwd="/verif", text=True, capture_output=True, env=env)
     finally:
-        sh("git -C /repo checkout -- .")
-        if os.path.exists(ev):
-            os.replace(ev, os.path.join(d, "evidence-%s.json" % cid))
-        if saved is not None:
-            open(ev, "w").write(saved)
+        sh("git -C %s checkout -- ." % tree)
+        if not wt:
+            if os.path.exists(ev):
+                os.replace(ev, os.path.join(d, "evidence-%s.json" % cid))
+            if saved is not None:
+                open(ev, "w").write(saved)
     viol = [l for l in p.stdout.splitlines() if l.startswith("VIOLATION") or l.startswith("KNOWN-FINDING")]
     det = [l.strip() for l in p.stderr.splitlines() if "violation key=" in l or "INCONCLUSIVE" in l]
     run = {"check": cid, "tier": tier, "exit": p.returncode, "wall_s": round(time.time() - t, 1), "stdout_lines": viol, "detail": det[:6],
+           "how": ("VERIF_REPO=scratch worktree" if wt else "git -C /repo apply; check; git -C /repo checkout -- ."),
            "caught": p.returncode == 1 and any(l.startswith("VIOLATION") for l in viol)}
     mp = os.path.join(d, "meta.json")
     meta = json.load(open(mp)) if os.path.exists(mp) else {}
     meta.setdefault("runs", []).append(run)
     json.dump(meta, open(mp, "w"), indent=1)
     print(json.dumps(run, indent=1))
-    clean = sh("git -C /repo status --porcelain --untracked-files=no").stdout.strip()
+    clean = sh("git -C %s status --porcelain --untracked-files=no" % tree).stdout.strip()
     if clean:
-        print("WARNING: /repo not clean after revert:", clean)
+        print("WARNING: %s not clean after revert: %s" % (tree, clean))
 
 if __name__ == "__main__":
     main()
